@@ -88,10 +88,19 @@ func addrStr(a net.Addr) string {
 	return "other/" + a.Network()
 }
 
+// panicInputs: inputs on which ReadHeader panicked at the reader level (where the panic is recovered and reported).  They
+// are kept away from the connection-level probes, where the panic would happen in a goroutine of the code under test
+// and kill the harness before anything is written; the full proxy sees them in the child process.
+var panicInputs = map[string]bool{}
+
+// connInputList: the inputs of the connection-level probes; they are run at the reader level first.
+var connInputList [][]byte
+
 func readWith(data []byte, cuts []int) (o obs) {
 	cr := &chunkReader{data: data, cuts: cuts}
 	defer func() {
 		if r := recover(); r != nil {
+			panicInputs[string(data)] = true
 			o = obs{OK: false, Consumed: -1, Err: fmt.Sprintf("PANIC: %v", r)}
 		}
 	}()
@@ -758,27 +767,28 @@ func writeKind(dir, kind, typ, modelF, propF string, cases []string, js []any, s
 }
 
 type meta struct {
-	Kinds          []kindInfo     `json:"kinds"`
-	ReaderCases    int            `json:"reader_cases"`
-	ReaderAccepted int            `json:"reader_accepted"`
-	ReaderRejected int            `json:"reader_rejected"`
-	Schedules      int            `json:"reader_schedules_run"`
-	Deviants       int            `json:"reader_outcomes_changed_by_segmentation"`
-	ErrHist        map[string]int `json:"reader_error_classes"`
-	LenHist        map[string]int `json:"reader_input_lengths"`
-	V2Cases        int            `json:"v2_sweep_cases"`
-	V2Accepted     int            `json:"v2_sweep_accepted"`
-	V2Exhaustive   string         `json:"v2_sweep_domain"`
-	TokenCases     int            `json:"token_cases"`
-	TokenIPs       int            `json:"token_ips_accepted"`
-	TokenExhLen    int            `json:"token_exhaustive_len"`
-	HistoryCases   int            `json:"history_cases"`
-	ConnCases      int            `json:"conn_cases"`
-	ConnTCP        int            `json:"conn_cases_tcp"`
-	ConnPipe       int            `json:"conn_cases_pipe"`
-	ConnAccepted   int            `json:"conn_cases_delivering_payload"`
-	E2E            any            `json:"e2e,omitempty"`
-	Samples        []any          `json:"samples"`
+	Kinds             []kindInfo     `json:"kinds"`
+	ReaderCases       int            `json:"reader_cases"`
+	ReaderAccepted    int            `json:"reader_accepted"`
+	ReaderRejected    int            `json:"reader_rejected"`
+	Schedules         int            `json:"reader_schedules_run"`
+	Deviants          int            `json:"reader_outcomes_changed_by_segmentation"`
+	ErrHist           map[string]int `json:"reader_error_classes"`
+	LenHist           map[string]int `json:"reader_input_lengths"`
+	V2Cases           int            `json:"v2_sweep_cases"`
+	V2Accepted        int            `json:"v2_sweep_accepted"`
+	V2Exhaustive      string         `json:"v2_sweep_domain"`
+	TokenCases        int            `json:"token_cases"`
+	TokenIPs          int            `json:"token_ips_accepted"`
+	TokenExhLen       int            `json:"token_exhaustive_len"`
+	HistoryCases      int            `json:"history_cases"`
+	ConnSkippedPanics int            `json:"conn_inputs_skipped_because_readheader_panics"`
+	ConnCases         int            `json:"conn_cases"`
+	ConnTCP           int            `json:"conn_cases_tcp"`
+	ConnPipe          int            `json:"conn_cases_pipe"`
+	ConnAccepted      int            `json:"conn_cases_delivering_payload"`
+	E2E               any            `json:"e2e,omitempty"`
+	Samples           []any          `json:"samples"`
 }
 
 func writeMeta(dir string, m any) {
@@ -812,6 +822,7 @@ func main() {
 	}
 
 	if *only == "conn" {
+		connInputList = connInputs(rng.New(*seed^0x2545f491), thorough)
 		runConnCases(*out, r, thorough, &m)
 		writeMeta(*out, m)
 		return
@@ -834,6 +845,10 @@ func main() {
 		nGarbage = 20000
 	}
 	genGarbage(c, nGarbage)
+	connInputList = connInputs(rng.New(*seed^0x2545f491), thorough)
+	for _, in := range connInputList {
+		c.add(in, "connection-level input", false, 1)
+	}
 	readerHistory(c, &m, thorough)
 	m.ReaderCases, m.ReaderAccepted, m.ReaderRejected = len(c.coq), c.accepted, c.rejected
 	m.Schedules, m.Deviants, m.ErrHist, m.LenHist = c.nSched, c.nDeviant, c.errHist, c.lenHist
@@ -899,7 +914,9 @@ func main() {
 		// quick: every command of version 2 x every family byte at the length that is valid for IPv4 and IPv6 (36),
 		// every version/command byte x the 24 assigned-or-adjacent family bytes, and commands 0..2 x every family byte x
 		// the eleven lengths; the full 256 x 256 x 11 product is the thorough tier
-		isKeyFam := func(fam int) bool { return fam < 4 || (fam&0xF0 <= 0x30 && fam&0x0F <= 2) || fam == 0x13 || fam == 0x23 || fam == 0x41 || fam == 0xff }
+		isKeyFam := func(fam int) bool {
+			return fam < 4 || (fam&0xF0 <= 0x30 && fam&0x0F <= 2) || fam == 0x13 || fam == 0x23 || fam == 0x41 || fam == 0xff
+		}
 		nLight := 0
 		for vc := 0; vc < 256; vc++ {
 			for fam := 0; fam < 256; fam++ {
@@ -1001,7 +1018,11 @@ func historyInputs(n int) [][]byte {
 		case 4:
 			h = v2header(0x21, 0x11, 12+len(tlv), append([]byte{10, 0, a, 1, 10, 1, a, 2, 0x1f, a, 0x00, a}, tlv...))
 		case 5:
-			h = []byte(fmt.Sprintf("PROXY TCP6 2001:db8::%x 2001:db8::1:%x %d %d\r\n", i+1, i+2, 1000+i, 2000+i))
+			if i%12 == 5 {
+				h = []byte(fmt.Sprintf("PROXY TCP6 2001:db8::%x 2001:db8::1:%x %d %d\r\n", i+1, i+2, 1000+i, 2000+i))
+			} else {
+				h = []byte(fmt.Sprintf("PROXY UNKNOWN zone-%d lb-%d\r\n", i, i*7))
+			}
 		}
 		ins = append(ins, append(h, pay...))
 	}
